@@ -207,13 +207,13 @@ pub mod harness {
             assert!(r == *sel, "Ternary: selected branch {:?} is already node-wide but the result is {:?}", sel, r);
         } else {
             let sext = signed && sel.signed;
-            assert!(r.signed == sext, "Ternary: result.signed = {}, node.signed = {}, selected.signed = {}", r.signed, signed, sel.signed);
             let k: usize = kani::any();
             kani::assume(k < 64);
             let e = if k < width { ext_bit(sel, k, sext) } else { Zero };
             assert!(bit(&r, k) == e,
                 "Ternary: bit {} of the result is {:?}, IEEE 1800 11.4.11/11.8.2 extension of the selected branch gives {:?}; cond = {:?}, true = {:?}, false = {:?}, node width = {}, node signed = {}, result = {:?}",
                 k, bit(&r, k), e, c, t, f, width, signed, r);
+            assert!(r.signed == sext, "Ternary: result.signed = {}, node.signed = {}, selected.signed = {}", r.signed, signed, sel.signed);
         }
         std::mem::forget(node);
     }
@@ -228,13 +228,13 @@ pub mod harness {
         let node = ternary_node(&c, &t, &f, width, t.signed && f.signed);
         let r = run64(&node);
         let sel = if truth(&c) == Some(true) { &t } else { &f };
-        assert!(!r.signed, "Ternary with one unsigned branch yields a signed value {:?}", r);
         let k: usize = kani::any();
         kani::assume(k < width);
         let e = if k < sel.width as usize { bit(sel, k) } else { Zero };
         assert!(bit(&r, k) == e,
             "Ternary with one unsigned branch must zero-extend: bit {} is {:?}, expected {:?}; cond = {:?}, true = {:?}, false = {:?}, width = {}, result = {:?}",
             k, bit(&r, k), e, c, t, f, width, r);
+        assert!(!r.signed, "Ternary with one unsigned branch yields a signed value {:?}", r);
         std::mem::forget(node);
     }
 
